@@ -111,7 +111,8 @@ class Gen:
 
     def read(self):
         r = self.r
-        op = r.choice(["search", "count", "contains", "get", "select", "all", "len", "iter", "get_measurements",
+        op = r.choice(self.focus.get("reads") or
+                      ["search", "count", "contains", "get", "select", "all", "len", "iter", "get_measurements",
                        "get_tag_keys", "get_tag_values", "get_field_keys", "get_field_values", "get_timestamps"])
         a = {"op": op}
         if op in ("search", "count", "contains", "get", "select"):
@@ -126,6 +127,7 @@ class Gen:
                 ks.append({"k": k, "key": 0 if k in ("time", "meas") else r.randrange(1, 4)})
             a["keys"] = ks
             a["scalar"] = r.randrange(2)
+        self.adapt(a, 0.4)
         if op in ("all", "len", "iter"):
             a["m"] = self.meas(0.6)
             if a["m"] != NONE:
@@ -166,7 +168,8 @@ class Gen:
                     p["t"] = min(NT - 1, tmax_hint + r.choice([0, 0, 1, 2, 3]))
             a.update({"ps": ps, "m": self.meas(0.8), "bad": 1 if r.random() < w.get("bad", 0.15) else 0})
         elif op == "remove":
-            a.update({"q": self.query(), "m": self.meas()})
+            a.update({"q": self.query(), "m": self.meas(0.7)})
+            self.adapt(a, 0.6)
         elif op == "drop_measurement":
             a.update({"m": r.randrange(NM)})
         elif op == "update":
@@ -174,6 +177,7 @@ class Gen:
             x = r.random()
             if x < w.get("fail", 0.1):
                 a["fail"] = r.choice([1, 1, 2, 3, -1, -2])
+            self.adapt(a, 0.5)
         elif op == "update_all":
             a.update({"u": self.update(), "fail": 0})
             if r.random() < w.get("fail", 0.1):
@@ -194,6 +198,14 @@ class Gen:
                     tmax = max([tmax] + [p["t"] for p in a["ps"]])
                 ops.append(a)
         return ops
+
+    def adapt(self, a, p=0.5):
+        """mark a query-carrying operation as adaptive: when it is executed, the recorder replaces
+        the query by one built from a point that is stored at that moment (so that it selects a
+        non-empty, usually proper, subset).  The verdict still comes from TLC."""
+        if "q" in a and self.r.random() < p:
+            a["adapt"] = self.r.randrange(1 << 20)
+        return a
 
     def battery(self, k=5):
         return [self.query(self.r.choice([0, 0, 1, 2])) for _ in range(k)]
